@@ -79,6 +79,16 @@ func stdNamedType(n ast.Node, tt *types.Named) (string, bool) {
 			ensureStruct(n, "pe.DataDirectory", st)
 			return "pe.DataDirectory", true
 		}
+	case "crypto/x509/pkix.AlgorithmIdentifier":
+		// the struct itself; `Algorithm asn1.ObjectIdentifier` is the list of its components (as an ObjectIdentifier is
+		// everywhere outside struct fields), `Parameters asn1.RawValue` stays Opaque
+		// — ONLY where a translated function reads it (`loadStdField`: authenticode.Authenticode.Algid); in every other
+		// struct field the type stays Opaque, so that the existing structures do not change
+		if st, ok := tt.Underlying().(*types.Struct); ok && (fieldDepth == 0 || stdFieldLoad > 0) {
+			fieldOverride["pkix.AlgorithmIdentifier.Algorithm"] = "(List Int)"
+			ensureStruct(n, "pkix.AlgorithmIdentifier", st)
+			return "pkix.AlgorithmIdentifier", true
+		}
 	case "crypto.Hash":
 		ensureAbbrev(n, "crypto.Hash", tt.Underlying())
 		return "crypto.Hash", true
